@@ -34,7 +34,7 @@ Calls == [f : {"add_plugin", "remove_plugin"}, s : Scopes, x : Plugins]
          \cup [f : {"add_contract", "remove_contract"}, s : {""}, x : Contracts]
          \cup [f : {"add_iface", "remove_iface"}, s : {""}, x : Ifaces]
          \cup [f : {"add_alias"}, s : {""}, x : Aliases]
-         \cup [f : {"run"}, s : {""}, x : {0}]
+         \cup [f : {"run", "runauth"}, s : {""}, x : {0}]
          \cup [f : {"compile", "assemble"}, s : Sources, x : {0}]
 
 \* does contract c fulfil at least one interface in the registry r?
@@ -54,6 +54,9 @@ Apply(r, c) ==
                                   ELSE [reg |-> [r EXCEPT !.alias = @ \cup {c.x}], res |-> "ok"]
       \* a run uses exactly the active plugins and contracts
       [] c.f = "run"           -> [reg |-> r, res |-> "ok"]
+      \* an authorization run of several scripts: every script - not only the first - sees the active
+      \* plugins and contracts; its last script invokes contract 1, so it authorizes iff contract 1 is active
+      [] c.f = "runauth"       -> [reg |-> r, res |-> IF 1 \in r.contr THEN "true" ELSE "false"]
       \* compiling depends on the source and the aliases only: never on earlier compilations
       [] c.f \in {"compile", "assemble"} ->
             [reg |-> r, res |-> CASE c.s = "macro_use_only" -> "error"
@@ -73,7 +76,7 @@ TraceLog == IF Mode = "trace" THEN JsonDeserialize(IOEnv.TRACE_FILE) ELSE <<>>
 \* lastObs: the most recent observation call (run / compile / assemble).  It has no influence
 \* on any result - that is the point of the property - but keeping it in the state makes TLC
 \* explore, for every registry state, every observation call after every other one.
-IsObs(c) == c.f \in {"run", "compile", "assemble"}
+IsObs(c) == c.f \in {"run", "runauth", "compile", "assemble"}
 Init == /\ plug = EmptyReg.plug /\ contr = {} /\ ifaces = {} /\ alias = {} /\ h = <<>> /\ lastObs = <<"none", "">>
         /\ tl \in (IF Mode = "trace" THEN {<<i, 1>> : i \in 1..Len(TraceLog)} ELSE {<<0, 0>>})
 
